@@ -222,4 +222,54 @@ def chainLineOK (genes : List Gene) (out : List (String × List (List Comp))) : 
   && (assemblyLine ((live.zip out).map fun (g, o) => (isReverse g.strand, o.2.flatten))).isSublist line
   && out.all fun o => o.2.all fun m => isInfixB m line
 
+
+/-! ### … and merging only between direct neighbours
+
+  The assembly line above runs through all genes.  Border modules may only be merged between two
+  genes that are direct neighbours in the iteration order (no gene in between, not even one
+  without domains), lie in the same region and on the same strand.  Wherever two consecutive live
+  genes are *not* such neighbours a separator pseudo-domain is put into the line; a reported module
+  must be a contiguous block of that line and contain no separator. -/
+
+/-- a pseudo-component that never occurs in a module (no label, no locus) -/
+def sepComp : Comp := ⟨"", [], 0, 0, ""⟩
+
+structure LineItem where
+  index : Nat
+  strand : Int
+  region : Nat
+  comps : List Comp
+deriving Repr
+
+/-- may border modules of these two consecutive live genes be merged at all -/
+def mergeable (a b : LineItem) : Bool :=
+  b.index == a.index + 1 && a.region == b.region && a.strand == b.strand
+
+/-- the separator entry, if any, between the previous live gene and `x` -/
+def sepBefore (prev : Option LineItem) (x : LineItem) : List (Bool × List Comp) :=
+  match prev with
+  | some p => if mergeable p x then [] else [(false, [sepComp])]
+  | none => []
+
+/-- the genes' entries for `lineGo`, with a separator entry between non-mergeable neighbours -/
+def interleave : Option LineItem → List LineItem → List (Bool × List Comp)
+  | _, [] => []
+  | prev, x :: xs => sepBefore prev x ++ (isReverse x.strand, x.comps) :: interleave (some x) xs
+
+/-- the assembly line with separators -/
+def chainLine (items : List LineItem) : List Comp := lineGo (interleave none items) []
+
+def geneItems (genes : List Gene) : List LineItem :=
+  (genes.filter liveGene).map fun g => ⟨g.index, g.strand, g.region, keptComps g.name g.domains⟩
+
+/-- the strengthened report check: as `chainLineOK`, against the line with separators, and no
+    reported module contains a separator — so a cross-gene module only ever spans direct
+    neighbours of one region and one strand, upstream gene's trailing end first -/
+def chainBlocksOK (genes : List Gene) (out : List (String × List (List Comp))) : Bool :=
+  let live := genes.filter liveGene
+  let line := chainLine (geneItems genes)
+  out.map (·.1) == live.map (·.name)
+  && (chainLine ((live.zip out).map fun (g, o) => ⟨g.index, g.strand, g.region, o.2.flatten⟩)).isSublist line
+  && out.all fun o => o.2.all fun m => isInfixB m line && !m.contains sepComp
+
 end ASV.Modules.Spec
